@@ -1,6 +1,8 @@
 From Coq Require Import List NArith Bool.
 From V.C04 Require Model.
 From V.C13 Require Import Model Proofs Flush Inbound Tables TwoNode TwoNodeProofs.
+From V.Ts Require Model Proofs Answers Extra.
+From V.Link Require Ts_C13.
 Import ListNotations.
 Open Scope N_scope.
 From V.C13 Require Import Properties.
@@ -200,3 +202,81 @@ Check (C13_two_node_request_wire :
     log a s = pre ++ (ESend p d len tag fb, o, tg) :: post ->
     In (OSent rid) o -> In (OBind c rid) (outs a s) -> In (OWire c l t) (outs a s) ->
     (l, t) = (len, tag) \/ exists n fl ft, fb = Some (n, fl, ft) /\ (l, t) = (fl, ft)).
+Check (C13_ledger_is_service_ledger :
+  forall (cf : cfg) (ka : bool) (T0 n0 : N) (ms : list V.Link.Ts_C13.jmove),
+  V.Link.Ts_C13.jtrace cf (V.Link.Ts_C13.j0 ka T0 n0) ms ->
+  let g := grun cf g0 (run_steps cf (init_pst, init_env) (V.Link.Ts_C13.evs_of ms)) in
+  let s := V.Ts.Model.final (V.Ts.Model.init ka T0 n0) (V.Link.Ts_C13.tr_of ms) in
+  (forall sid p, In (sid, p) (g_opens g) ->
+     (exists c, In (sid, (p, c)) (V.Ts.Model.s_pend s)) \/
+     In (sid, p) (V.Link.Ts_C13.lost_run (V.Ts.Model.init ka T0 n0) (V.Link.Ts_C13.tr_of ms))) /\
+  (forall q, In q (g_conn g) <-> V.Ts.Extra.hc (V.Ts.Model.s_ctxs s) q = true)).
+Check (C13_opens_discharged_on_service :
+  forall (cf : cfg) (ka : bool) (T0 n0 : N) (ms : list V.Link.Ts_C13.jmove),
+  V.Link.Ts_C13.jtrace cf (V.Link.Ts_C13.j0 ka T0 n0) ms ->
+  V.Ts.Model.s_pend (V.Ts.Model.final (V.Ts.Model.init ka T0 n0) (V.Link.Ts_C13.tr_of ms)) = [] ->
+  V.Link.Ts_C13.lost_run (V.Ts.Model.init ka T0 n0) (V.Link.Ts_C13.tr_of ms) = [] ->
+  g_opens (grun cf g0 (run_steps cf (init_pst, init_env) (V.Link.Ts_C13.evs_of ms))) = []).
+Check (C13_exactly_one_on_service_model :
+  forall (cf : cfg) (ka : bool) (T0 n0 : N) (ms : list V.Link.Ts_C13.jmove) (r : N),
+  0 < tmo cf ->
+  V.Link.Ts_C13.jtrace cf (V.Link.Ts_C13.j0 ka T0 n0) ms ->
+  V.Ts.Model.s_pend (V.Ts.Model.final (V.Ts.Model.init ka T0 n0) (V.Link.Ts_C13.tr_of ms)) = [] ->
+  V.Link.Ts_C13.lost_run (V.Ts.Model.init ka T0 n0) (V.Link.Ts_C13.tr_of ms) = [] ->
+  let g := grun cf g0 (run_steps cf (init_pst, init_env) (V.Link.Ts_C13.evs_of ms)) in
+  g_dials g = [] ->
+  (forall x, In x (g_live g) -> snd x <= g_now g) ->
+  let res := run cf (init_pst, init_env) (V.Link.Ts_C13.evs_of ms) in
+  In (OSent r) (snd res) ->
+  terms r (snd res) = 1%nat \/ In r (cancel_reqs (V.Link.Ts_C13.evs_of ms))).
+Check (C13_exactly_one_on_service_model_single :
+  forall (cf : cfg) (ka : bool) (T0 n0 : N) (ms : list V.Link.Ts_C13.jmove) (r : N),
+  0 < tmo cf ->
+  V.Link.Ts_C13.jtrace cf (V.Link.Ts_C13.j0 ka T0 n0) ms ->
+  V.Ts.Model.feasible 1 V.Ts.Model.env0 (V.Ts.Model.init ka T0 n0) (V.Link.Ts_C13.tr_of ms) = true ->
+  V.Ts.Model.s_pend (V.Ts.Model.final (V.Ts.Model.init ka T0 n0) (V.Link.Ts_C13.tr_of ms)) = [] ->
+  let g := grun cf g0 (run_steps cf (init_pst, init_env) (V.Link.Ts_C13.evs_of ms)) in
+  g_dials g = [] ->
+  (forall x, In x (g_live g) -> snd x <= g_now g) ->
+  let res := run cf (init_pst, init_env) (V.Link.Ts_C13.evs_of ms) in
+  In (OSent r) (snd res) ->
+  terms r (snd res) = 1%nat \/ In r (cancel_reqs (V.Link.Ts_C13.evs_of ms))).
+Check (C13_service_silent_close_loses_open :
+  let ms := V.Link.Ts_C13.ms_lost in
+  let cf := V.Link.Ts_C13.cf_ex in
+  V.Link.Ts_C13.jtrace cf (V.Link.Ts_C13.j0 true 1000 0) ms /\
+  V.Ts.Model.feasible 2 V.Ts.Model.env0 (V.Ts.Model.init true 1000 0) (V.Link.Ts_C13.tr_of ms) = true /\
+  V.Ts.Model.s_pend (V.Ts.Model.final (V.Ts.Model.init true 1000 0) (V.Link.Ts_C13.tr_of ms)) = [] /\
+  V.Link.Ts_C13.lost_run (V.Ts.Model.init true 1000 0) (V.Link.Ts_C13.tr_of ms) = [(0, 7)] /\
+  g_opens (grun cf g0 (run_steps cf (init_pst, init_env) (V.Link.Ts_C13.evs_of ms))) = [(0, 7)] /\
+  terms 0 (snd (run cf (init_pst, init_env) (V.Link.Ts_C13.evs_of ms))) = 0%nat).
+Check (C13_service_joint_history_nonvacuous :
+  let ms := V.Link.Ts_C13.ms_ok in
+  let cf := V.Link.Ts_C13.cf_ex in
+  V.Link.Ts_C13.jtrace cf (V.Link.Ts_C13.j0 true 1000 0) ms /\
+  V.Ts.Model.s_pend (V.Ts.Model.final (V.Ts.Model.init true 1000 0) (V.Link.Ts_C13.tr_of ms)) = [] /\
+  V.Link.Ts_C13.lost_run (V.Ts.Model.init true 1000 0) (V.Link.Ts_C13.tr_of ms) = [] /\
+  grun cf g0 (run_steps cf (init_pst, init_env) (V.Link.Ts_C13.evs_of ms)) = mkG 0 [] [] [] [] /\
+  snd (run cf (init_pst, init_env) (V.Link.Ts_C13.evs_of ms)) =
+    [OSent 0; OOpen 0 5; OBind 0 0; OWire 0 3 9; OResp 0 4 8; OSent 1; OOpen 1 5; OFail 1 4]).
+Check (C13_task_contract_empties_service :
+  forall (s0 : V.Ts.Model.st) (tr : list (N * V.Ts.Model.ev)),
+  V.Ts.Answers.pend_inv s0 -> V.Ts.Model.s_pend s0 = [] -> V.Ts.Proofs.nowrap s0 tr ->
+  V.Link.Ts_C13.task_contract s0 tr ->
+  V.Ts.Model.s_pend (V.Ts.Model.final s0 tr) = []).
+Check (C13_exactly_one_on_service_model_contract :
+  forall (cf : cfg) (ka : bool) (T0 n0 : N) (ms : list V.Link.Ts_C13.jmove) (r : N),
+  0 < tmo cf ->
+  V.Link.Ts_C13.jtrace cf (V.Link.Ts_C13.j0 ka T0 n0) ms ->
+  V.Ts.Proofs.nowrap (V.Ts.Model.init ka T0 n0) (V.Link.Ts_C13.tr_of ms) ->
+  V.Link.Ts_C13.task_contract (V.Ts.Model.init ka T0 n0) (V.Link.Ts_C13.tr_of ms) ->
+  V.Link.Ts_C13.lost_run (V.Ts.Model.init ka T0 n0) (V.Link.Ts_C13.tr_of ms) = [] ->
+  let g := grun cf g0 (run_steps cf (init_pst, init_env) (V.Link.Ts_C13.evs_of ms)) in
+  g_dials g = [] ->
+  (forall x, In x (g_live g) -> snd x <= g_now g) ->
+  let res := run cf (init_pst, init_env) (V.Link.Ts_C13.evs_of ms) in
+  In (OSent r) (snd res) ->
+  terms r (snd res) = 1%nat \/ In r (cancel_reqs (V.Link.Ts_C13.evs_of ms))).
+Check (C13_service_contract_nonvacuous :
+  V.Link.Ts_C13.task_contract (V.Ts.Model.init true 1000 0) (V.Link.Ts_C13.tr_of V.Link.Ts_C13.ms_ok) /\
+  V.Ts.Proofs.nowrap (V.Ts.Model.init true 1000 0) (V.Link.Ts_C13.tr_of V.Link.Ts_C13.ms_ok)).
